@@ -23,6 +23,8 @@ pub struct DRoot {
     pub growth_rate: Decimal,
     /// number of epochs already created in the setup prefix (with alice bonded and an inflow each)
     pub pre_epochs: u64,
+    /// further set-up actions after the epoch prefix
+    pub then: Vec<DAct>,
 }
 
 pub struct DistScn {
@@ -94,6 +96,9 @@ impl Scenario for DistScn {
                 self.step(w, &h, &mut g, &DAct::Inflow { amount: 1_000_000 }, &mut cx);
                 self.step(w, &h, &mut g, &DAct::Epoch, &mut cx);
             }
+        }
+        for a in &r.then {
+            self.step(w, &h, &mut g, a, &mut cx);
         }
         assert!(cx.violations.is_empty(), "root setup violated oracles: {:?}", cx.violations);
         (h, g)
